@@ -63,8 +63,9 @@ func (q *ConcurrentQueue[T]) Put(val T) error {
 
 // Take Take the T val(probably blocking)
 func (q *ConcurrentQueue[T]) Take() (T, error) {
-	q.lock.RLock()
-	defer q.lock.RUnlock()
+	// removing mutates the wrapped queue: exclusive lock
+	q.lock.Lock()
+	defer q.lock.Unlock()
 
 	return q.queue.Take()
 }
@@ -79,8 +80,9 @@ func (q *ConcurrentQueue[T]) Offer(val T) error {
 
 // Poll Poll the T val(non-blocking)
 func (q *ConcurrentQueue[T]) Poll() (T, error) {
-	q.lock.RLock()
-	defer q.lock.RUnlock()
+	// removing mutates the wrapped queue: exclusive lock
+	q.lock.Lock()
+	defer q.lock.Unlock()
 
 	return q.queue.Poll()
 }
@@ -110,8 +112,9 @@ func (q *ConcurrentStack[T]) Push(val T) error {
 
 // Take Take the T val(probably blocking)
 func (q *ConcurrentStack[T]) Pop() (T, error) {
-	q.lock.RLock()
-	defer q.lock.RUnlock()
+	// removing mutates the wrapped stack: exclusive lock
+	q.lock.Lock()
+	defer q.lock.Unlock()
 
 	return q.stack.Pop()
 }
